@@ -63,9 +63,15 @@ CHECKS = {
  "C18": dict(level="exploration", sec="4 C18", engine="pg", tech="runtime monitoring: generated Config values checked against an independent reference translation through tokio_postgres::Config getters; built pools observed against a scripted server on a loopback port",
    text="Every field of Config is set/unset independently with hostile textual values, URLs in both syntaxes (valid and invalid), every enum variant, USER set and unset; get_pg_config() is compared option by option with a reference translation, panics are violations. create_pool() results are observed on the built pool: max_size, timeouts, queue mode (order of reuse) and recycling method (check query seen by the server), and the missing-runtime build error.",
    note="The URL grammar itself is tokio-postgres's; the reference uses the same parser for the URL part only."),
+ "C17": dict(level="exploration", sec="4 C17", engine="redis", tech="runtime monitoring: scripted RESP server on a loopback port with per-connection command log and WATCH flag; scripted answers to the recycle PING; identity probe at hand-out",
+   text="The real redis-rs multiplexed client talks to a scripted RESP server. At every hand-out of a reused connection the server's log for that connection must show exactly UNWATCH then PING <v> since the return, v must be new for the pool, the echo must have been correct and no WATCH state may be left; a connection whose PING got a stale / wrong value, an error, a disconnect or silence must never be handed out again; Connection::take is checked through status() and the server log.",
+   note="Loopback TCP only; cluster and sentinel pools are not covered by this property."),
+ "C19": dict(level="exploration", sec="4 C19", engine="redis", tech="runtime monitoring: generated configs against rule oracle and redis crate parser; field-wise conversion checks; serde_json and config::Environment round trips; scripted RESP listeners observe which servers are contacted and with which AUTH/HELLO/SELECT",
+   text="Generated Config values of the three flavours (both/neither/one of url and connection, malformed URLs) are checked for the documented error or success without panics; generated connection descriptions are converted to the redis crate's types and back field by field; generated PoolConfig values with durations over the full range are round-tripped through a typed and a string-typed source; which servers a built pool really contacts, and the credentials / protocol / database it uses there, is observed on scripted listeners (standalone, cluster with CLUSTER SLOTS, sentinel with SENTINEL MASTERS).",
+   note="The 'default local server' case needs port 6379 to be free; otherwise that cell is reported inconclusive. TLS addresses are not connected to."),
 }
 PENDING = {
- "C17": "not built yet in this revision", "C19": "not built yet in this revision",
+
 }
 # allow the table to be overridden by a sibling file as the build progresses
 ov = os.path.join(ROOT, "tools", "manifest_table.py")
